@@ -256,7 +256,7 @@ func init() {
 
 func genC06(c *RunCtx) []*Batch {
 	r := c.R
-	n := c.N(6000, 400000)
+	n := c.N(14000, 400000)
 	hist := map[string]int{}
 	var samples []string
 	seen := map[string]bool{}
